@@ -115,8 +115,11 @@ def _generate_slice(ns, node):
         else:
             sr = f"[{node.start}]"
     r, s = _generate_expression(ns, node.value)
-    # A bit/part-select is always unsigned (a 1-bit Signal printed without select keeps its signedness).
-    return r + sr, (s if sr == "" else False)
+    # A bit/part-select is always unsigned: a 1-bit signed Signal (printed without select) is made unsigned
+    # with a concatenation (valid in expressions and as assignment target).
+    if (sr == "") and s:
+        r = "{" + r + "}"
+    return r + sr, False
 
 # Print Cat ----------------------------------------------------------------------------------------
 
